@@ -27,6 +27,7 @@ def file_text(kind, m, votes, ncat=0):
     return "\n".join(lines) + "\n"
 
 class C19(Prop):
+    translators = ['preflib']   # the five converters regenerated from preflib_utils.py on every run
     pid = "C19"
     sources = ["socialchoicekit/preflib_utils.py"]
     groups = {"pl": Group("pl", "From SCK Require Import Preflib.", "Preflib.pl_case", "Preflib.chk_pl")}
